@@ -132,6 +132,19 @@ def run(ctx):
                 cases.append({"id": "leftover%d" % i, "schema": schema, "dir": d, "kind": "leftover", "_off": len(pre), "_lenient_prelude": True,
                               "ops": pre + [{"op": "create", "schema": schema, "dir": d}, {"op": "verify"}, {"op": "db_query", "q": "version_name"},
                                             {"op": "release_all"}, {"op": "load", "dir": d}, {"op": "verify"}, {"op": "release_all"}]})
+            if is_v2(schema):
+                # a Database2 folder in which Engine DJ has already left its sibling databases (history hm.db, streaming stm.db,
+                # iTunes itm.db - each with an Information row of its own, here of another 2.x version) but no m.db yet
+                d = os.path.join(root, "sibling%d" % i)
+                os.makedirs(d)
+                other = "2.18.0" if schema != "2.18.0" else "2.21.2"
+                m = os.path.join(d, "Database2", "m.db")
+                pre = [{"op": "create", "schema": other, "dir": d}, {"op": "create_track", "as": "t0", "snap": {"relative_path": "612e6d7033"}},
+                       {"op": "release_all"}] + [{"op": "copy_file", "from": m, "to": os.path.join(d, "Database2", n)} for n in ("hm.db", "stm.db", "itm.db")] + \
+                      [{"op": "remove_file", "path": m}]
+                cases.append({"id": "sibling%d" % i, "schema": schema, "dir": d, "kind": "leftover", "_off": len(pre), "_lenient_prelude": True, "_sibling": True,
+                              "ops": pre + [{"op": "create", "schema": schema, "dir": d}, {"op": "verify"}, {"op": "db_query", "q": "version_name"},
+                                            {"op": "release_all"}, {"op": "load", "dir": d}, {"op": "verify"}, {"op": "release_all"}]})
             cases.append({"id": "temp%d" % i, "schema": schema, "kind": "temp",
                           "ops": [{"op": "create_temporary", "schema": schema}, {"op": "verify"}, {"op": "db_query", "q": "version_name"},
                                   {"op": "rawdump", "checks": False},
@@ -160,7 +173,7 @@ def run(ctx):
                     ctx.bump("creation_refused_next_to_leftover_files")
                     ctx.count()
                     continue
-                ctx.bump("creation_accepted_next_to_leftover_files")
+                ctx.bump("creation_accepted_next_to_engine_sibling_databases" if c.get("_sibling") else "creation_accepted_next_to_leftover_files")
             elif off:
                 if any("exc" in e for e in ev[:off]) or ev[off - 1].get("ret") is not False:
                     ctx.violation(f"reused-directory-prelude {schema}", f"{schema}: creating, loading and deleting a library of the other generation "
